@@ -152,6 +152,16 @@ Theorem unpipelined_job_commits_nothing : forall (eps : Z) (E : env) (s : sess) 
 Proof. exact Lemmas.unpipelined_job_commits_nothing. Qed.
 Print Assumptions unpipelined_job_commits_nothing.
 
+Theorem committed_job_reached_role_minimums : forall (eps : Z) (E : env) (s : sess) (jid : positive) (j : job)
+    (lg : list arec) (s' : sess) (lg' : list arec),
+  jobs s !! jid = Some j -> gang_in (e_tiers E) = true ->
+  close_job eps E s jid lg = (s', lg') -> lg' <> [] ->
+  is_pipelined (heap s) (j_index j) (j_min j) = true /\
+  (j_role_total j <= j_min j ->
+   forall r m, j_role_min j !! r = Some m -> m <= role_occupied (heap s) (j_index j) true r).
+Proof. exact VoteLemmas.committed_job_reached_role_minimums. Qed.
+Print Assumptions committed_job_reached_role_minimums.
+
 (* MAIN 1 *)
 Theorem evictions_only_with_placement : forall (eps : Z) (E : env) (cs : list choice) (s s' : sess) (lg : list arec),
   clear s -> heap_ok s -> run eps E s cs = (s', lg) ->
